@@ -469,4 +469,88 @@ Section ImportProofs.
     pose proof (missing_le_length mods r). lia.
   Qed.
 
+  (* ------------------------------------------------------------------ *)
+  (* closedness: what an inlined definition needs is defined in the session.
+     `ok E s` = "statement s is well-scoped in an environment that offers the
+     statements satisfying E" — any monotone predicate. *)
+  Variable ok : (S -> Prop) -> S -> Prop.
+  Hypothesis ok_mono : forall (E E' : S -> Prop) s, (forall x, E x -> E' x) -> ok E s -> ok E' s.
+
+  (* a program is closed relative to already imported modules `base`: each of its
+     statements needs only its own earlier statements, modules of `base`, and modules
+     reachable from its own earlier `use`s *)
+  Definition closed_prog (base : list M) (p : list (stmt M S)) : Prop :=
+    forall p1 s p2, p = p1 ++ SOther s :: p2 ->
+      ok (fun x => In x (own p1) \/ exists m', (In m' base \/ reach (uses p1) m') /\ In x (own_of m')) s.
+  Definition closed_table : Prop := forall m q, body m = Some q -> closed_prog [] q.
+
+  Lemma In_own_split : forall p s, In s (own p) -> exists p1 p2, p = p1 ++ SOther s :: p2.
+  Proof.
+    induction p as [|st r IH]; intros s H; [destruct H|].
+    destruct st as [m|x]; cbn in H.
+    - destruct (IH s H) as (p1 & p2 & E). exists (SUse m :: p1), p2. now rewrite E.
+    - destruct H as [->|H]; [exists [], r; reflexivity|].
+      destruct (IH s H) as (p1 & p2 & E). exists (SOther x :: p1), p2. now rewrite E.
+  Qed.
+
+  Lemma own_app : forall p1 p2, own (p1 ++ p2) = own p1 ++ own p2.
+  Proof. intros. unfold own. apply flat_map_app. Qed.
+  Lemma uses_app : forall p1 p2, uses (p1 ++ p2) = uses p1 ++ uses p2.
+  Proof. intros. unfold uses. apply flat_map_app. Qed.
+
+  Lemma closed_reach : forall r m q m',
+      closed_except [] r -> In m (imported r) -> body m = Some q -> reach (uses q) m' -> In m' (imported r).
+  Proof.
+    intros r m q m' Hc Hm Hq H. induction H.
+    - eapply Hc; eauto.
+    - eapply Hc; eauto.
+  Qed.
+
+  (* every statement of a successful run is well-scoped in the environment made of
+     the whole output and the modules imported before: nothing an inlined definition
+     refers to is missing from the session, in ANY import order *)
+  Theorem defs_available :
+    closed_table ->
+    forall fuel r p r' out,
+      closed_except [] r -> NoDup (imported r) ->
+      inlining_pass fuel r p = (r', ROk out) ->
+      closed_prog (imported r) p ->
+      forall s, In s out ->
+        ok (fun x => In x out \/ exists m, In m (imported r) /\ In x (own_of m)) s.
+  Proof.
+    intros Htab fuel r p r' out Hc ND E Hp s Hs.
+    destruct (pass_once fuel r p ND) as (new & A1 & A2 & A3). rewrite E in A1, A3. cbn [fst snd] in *.
+    specialize (A3 out eq_refl). cbn [app] in A3.
+    pose proof (pass_closed fuel r p [] out Hc) as Hcl. rewrite E in Hcl. cbn [fst snd] in Hcl.
+    destruct (Hcl eq_refl) as [C' U'].
+    assert (Hout : forall x, In x out <-> In x (own p) \/ exists m, In m new /\ In x (own_of m)).
+    { intro x. split.
+      - intro H. apply (Permutation_in _ A3) in H. apply in_app_iff in H. destruct H as [H|H]; [now left|].
+        right. apply in_flat_map in H. exact H.
+      - intro H. apply (Permutation_in _ (Permutation_sym A3)). apply in_app_iff.
+        destruct H as [H|H]; [now left|]. right. apply in_flat_map. exact H. }
+    assert (Hmods : forall m' x, In m' (imported r') -> In x (own_of m') ->
+                                 In x out \/ exists m, In m (imported r) /\ In x (own_of m)).
+    { intros m' x Hm Hx. rewrite A1 in Hm. apply in_app_iff in Hm. destruct Hm as [Hm|Hm].
+      - right. now exists m'.
+      - left. apply Hout. right. now exists m'. }
+    apply Hout in Hs. destruct Hs as [Hs|(m & Hm & Hs)].
+    - destruct (In_own_split _ _ Hs) as (p1 & p2 & Ep). specialize (Hp p1 s p2 Ep).
+      eapply ok_mono; [|exact Hp]. intros x [Hx|(m' & [Hb|Hr] & Hx)].
+      + left. apply Hout. left. rewrite Ep, own_app. apply in_app_iff. now left.
+      + right. now exists m'.
+      + apply (Hmods m' x); [|exact Hx].
+        apply (imported_is_closure _ _ _ _ _ Hc E). right.
+        eapply reach_mono; [|exact Hr]. rewrite Ep, uses_app. apply incl_appl, incl_refl.
+    - unfold own_of in Hs. destruct (body m) as [q|] eqn:Hq; [|destruct Hs].
+      destruct (In_own_split _ _ Hs) as (q1 & q2 & Eq). pose proof (Htab m q Hq q1 s q2 Eq) as Hk.
+      assert (Hmi : In m (imported r')) by (rewrite A1; apply in_app_iff; now right).
+      eapply ok_mono; [|exact Hk]. intros x [Hx|(m' & [[]|Hr] & Hx)].
+      + left. apply Hout. right. exists m. split; [exact Hm|]. unfold own_of. rewrite Hq, Eq, own_app.
+        apply in_app_iff. now left.
+      + apply (Hmods m' x); [|exact Hx].
+        eapply closed_reach; [exact C' | exact Hmi | exact Hq|].
+        eapply reach_mono; [|exact Hr]. rewrite Eq, uses_app. apply incl_appl, incl_refl.
+  Qed.
+
 End ImportProofs.
